@@ -395,7 +395,7 @@ func eqItems(a, b any) bool {
 	if a == nil || b == nil {
 		return a == b
 	}
-	if reflect.TypeOf(a).Comparable() && reflect.TypeOf(b).Comparable() {
+	if reflect.ValueOf(a).Comparable() && reflect.ValueOf(b).Comparable() {
 		return a == b
 	}
 	return reflect.DeepEqual(a, b)
